@@ -11,6 +11,7 @@ import (
 	"sort"
 	"strings"
 	"sync"
+	"unsafe"
 
 	"github.com/cloudwego/dynamicgo/conv"
 	"github.com/cloudwego/dynamicgo/conv/j2p"
@@ -46,7 +47,15 @@ struct HResp {
   3: string Hd (api.header="X-R"),
   4: required string Ck (api.cookie="rc"),
 }
-service S { HResp M(1: HReq req) }
+exception Ex {
+  1: string Msg,
+  2: i32 Code,
+  3: list<string> Details,
+}
+service S {
+  HResp M(1: HReq req)
+  HResp X(1: HReq req) throws (1: Ex e)
+}
 `
 
 // c12Fix is everything one session shares: descriptors, converter instances, read-only inputs.
@@ -56,6 +65,7 @@ type c12Fix struct {
 	// inputs (on read-only trap pages)
 	tb, tj, pb, pj, hj, hrespb []byte
 	hrespMsg, hrespMsgTrunc    []byte // reply envelope around hrespb (and a truncated one)
+	excb                       []byte // response wrapper carrying the exception field
 	tbTrunc, tjTrunc, pbTrunc  []byte
 	tjMissing                  []byte
 	paths                      [][]generic.Path
@@ -70,6 +80,8 @@ type c12Descs struct {
 	hfn    *thrift.FunctionDescriptor
 	hconv  *j2t.HTTPConv
 	thconv *t2j.HTTPConv
+	xresp  *thrift.TypeDescriptor // response wrapper of X (field 0: HResp, field 1: Ex)
+	t2jExc *t2j.BinaryConv
 	// shared converter instances
 	t2j, t2jHTTP            *t2j.BinaryConv
 	j2t, j2tStrict, j2tHTTP *j2t.BinaryConv
@@ -99,6 +111,11 @@ func (f *c12Fix) parse() (*c12Descs, error) {
 	d.hfn = fn
 	d.hconv = j2t.NewHTTPConv(meta.EncodingThriftBinary, fn)
 	d.thconv = t2j.NewHTTPConv(meta.EncodingThriftBinary, fn)
+	if xfn, _ := hs.LookupFunctionByMethod("X"); xfn != nil {
+		d.xresp = xfn.Response()
+	}
+	xc := t2j.NewBinaryConv(conv.Options{ConvertException: true})
+	d.t2jExc = &xc
 	ps, err := dproto.NewDescritorFromContent(context.Background(), "verif.proto", f.protoText, nil)
 	if err != nil {
 		return nil, err
@@ -350,6 +367,19 @@ func (f *c12Fix) ops() []c12Op {
 			err := d.thconv.Do(ctx, resp, f.hrespMsgTrunc, conv.Options{})
 			return resStr(nil, err)
 		}},
+		{"t2j.exception-as-error", func(d *c12Descs) (string, []byte) {
+			// ConvertException: the exception comes back as an error whose text is its JSON; the text is a result
+			// like any other and is held (as a view of the string's bytes) across later calls
+			if d.xresp == nil {
+				return "no-desc", nil
+			}
+			out, err := d.t2jExc.Do(ctx, d.xresp, f.excb)
+			if err == nil {
+				return "ok-without-exception:" + h.Sha(out), out
+			}
+			msg := err.Error()
+			return "exception:" + h.Sha([]byte(msg)), unsafe.Slice(unsafe.StringData(msg), len(msg))
+		}},
 		{"thrift.Value.Interface", func(d *c12Descs) (string, []byte) {
 			v, err := generic.NewValue(d.t, f.tb).Interface(gopts())
 			if err != nil {
@@ -457,6 +487,10 @@ func c12Fixture(cs *h.Case) *c12Fix {
 	f.tb, f.tj, f.pb, f.pj = f.trap(tb), f.trap([]byte(tj)), f.trap(pb), f.trap([]byte(pj))
 	f.hj = f.trap([]byte(`{"Plain":123456789012,"Dflt":"d"}`))
 	f.hrespb = f.trap(tref.Encode(hresp))
+	f.excb = f.trap(tref.Encode(tref.Struct(tref.Field{ID: 1, V: tref.Struct(
+		tref.Field{ID: 1, V: tref.Str("exception message " + strings.Repeat("x", cs.R.Intn(200)))},
+		tref.Field{ID: 2, V: tref.Int32(int32(cs.R.Intn(1000)))},
+		tref.Field{ID: 3, V: tref.List(tref.STRING, tref.Str("d1"), tref.Str("d2"))})})))
 	env := tref.WrapMessage("M", 2, 9, 0, tref.Encode(hresp))
 	f.hrespMsg = f.trap(env)
 	f.hrespMsgTrunc = f.trap(env[:len(env)-7])
